@@ -169,6 +169,12 @@ VERS = {"explicit": "d1", "explicit-empty": "", "explicit-colons": "1::2:#3"}
 
 
 def base_prog(callee_kind, cluster, argpass=False):
+    if argpass == "ppartial":
+        # the caller invokes the callee through a positional partial application (the stored invocation then carries
+        # partial arguments and depends on the recorded parameter names once the callee is gone)
+        R = mkfunc("R", kind="explicit", version="1", calls=[call("D", "ppartial")], rich=False, cluster=cluster)
+        D = mkfunc("D", kind="explicit" if callee_kind.startswith("explicit") else callee_kind, version=VERS.get(callee_kind), rich=False, cluster=cluster)
+        return {"funcs": [R, D], "vars": {}}
     if argpass == "modb":
         # the callee lives in a second module b of the package (referenced as b.D)
         R = mkfunc("R", kind="explicit", version="1", calls=[call("D", "modattr")], rich=False, cluster=cluster)
@@ -284,6 +290,24 @@ def _observe(a, m, cluster):
                                 pass
                     obs["refs"] = sorted(set(refs))
                     obs["current"] = sorted(cur)
+                    try:
+                        obs["inv_args"] = [(i.fn_reference.qualified_name.split("::")[-1], i.arg_hash, sorted((k, repr(v)[:40]) for k, v in i.effective_kwargs.items()
+                                                                                                     if not hasattr(v, "fn_reference")))
+                                           for i in r.invocation_metadata.invocations]
+                    except Exception as e:
+                        obs["inv_args"] = "EXC:%s:%s" % (type(e).__name__, str(e)[:80])
+                    # through the unbound stub of a vanished version (and through a modifier clone of it) the stored
+                    # entries of that version are still reachable
+                    stubs = []
+                    for i in r.invocation_metadata.invocations:
+                        if i.fn_reference.external:
+                            stub = i.fn_reference.memento_fn
+                            try:
+                                stubs.append((i.fn_reference.qualified_name, len(stub.list_mementos()), len(stub.force_local().list_mementos()),
+                                              stub.fn_reference().qualified_name, stub.force_local().fn_reference().qualified_name))
+                            except Exception as e:
+                                stubs.append((i.fn_reference.qualified_name, "EXC:%s:%s" % (type(e).__name__, str(e)[:80])))
+                    obs["stubs"] = stubs
         except Exception as e:
             obs[name] = "EXC:%s:%s" % (type(e).__name__, str(e)[:100])
     try:
@@ -346,7 +370,7 @@ def part_c(args):
             bad = judge_c(o, want, prev, o0, "recluster" in steps[:k + 1])
             prev = o
             if bad:
-                sig = "evolve|%s|callee:%s%s|step:%s|%s" % (_cl(cluster), callee_kind, {True: "+as-argument", "modb": "+in-second-module"}.get(argpass, ""), st, bad[0])
+                sig = "evolve|%s|callee:%s%s|step:%s|%s" % (_cl(cluster), callee_kind, {True: "+as-argument", "modb": "+in-second-module", "ppartial": "+through-positional-partial"}.get(argpass, ""), st, bad[0])
                 out["violations"].append((sig, bad[1] + "\ncallee kind=%s cluster=%s passed-as-argument=%s history=%s" % (callee_kind, cluster, argpass, list(steps[:k + 1])),
                                           {"part": "C", "callee": callee_kind, "cluster": cluster, "steps": list(steps[:k + 1]), "argpass": argpass}))
                 break
@@ -380,6 +404,17 @@ def judge_c(o, want, prev, first, moved=False):
     # (a callee that moved to another cluster resolves to the live function: compared without the cluster part)
     if {q.split("::")[-1] for q, _ in o["refs"]} != {q.split("::")[-1] for q, _ in first["refs"]}:
         return ("reference-names-changed", "the caller's memento names %s, when stored it named %s" % (sorted({q for q, _ in o["refs"]}), sorted({q for q, _ in first["refs"]})))
+    # ... and with the same arguments
+    if not moved and o.get("inv_args") != first.get("inv_args"):
+        return ("reference-arguments-changed", "the invocations recorded in the caller's memento read %s, when stored they read %s" % (o.get("inv_args"), first.get("inv_args")))
+    for st in o.get("stubs", []):
+        if len(st) == 2:
+            return ("stub-raised", "listing through the stub of vanished %s raised %s" % (st[0], st[1][4:]))
+        qn, n1, n2, q1, q2 = st
+        if q1 != qn or q2 != qn:
+            return ("stub-name", "the stub of vanished %s calls itself %s, its force_local clone %s" % (qn, q1, q2))
+        if n1 < 1 or n2 != n1:
+            return ("stub-listing", "through the stub of vanished %s: %d memento(s), through its force_local clone: %d (the call was memoized once)" % (qn, n1, n2))
     # nothing was forgotten: whatever was listed before is still listed under the same name with at least as many entries
     if isinstance(o["listed"], str):
         return ("listing-raised", "listing the functions and their mementos raised %s" % o["listed"][4:])
@@ -407,12 +442,12 @@ def part_c_inproc(args):
             progs.append(nxt)
         obs = farm.fork_call(_c_inproc_child, top, os.path.join(top, "store"), cluster, progs)
         want = obs[0]["value"]
-        if obs[0]["bodies"] != (["R", "M", "D"] if argpass else ["R", "D"]):
+        if obs[0]["bodies"] != (["R", "M", "D"] if argpass is True else ["R", "D"]):
             raise HarnessError("initial in-process run is wrong: %s" % (obs[0],))
         for k in range(1, len(obs)):
             bad = judge_c(obs[k], want, obs[k - 1], obs[0], "recluster" in steps[:k])
             if bad:
-                sig = "evolve-inproc|%s|callee:%s%s|step:%s|%s" % (_cl(cluster), callee_kind, "+as-argument" if argpass else "", steps[k - 1], bad[0])
+                sig = "evolve-inproc|%s|callee:%s%s|step:%s|%s" % (_cl(cluster), callee_kind, {True: "+as-argument", "modb": "+in-second-module", "ppartial": "+through-positional-partial"}.get(argpass, ""), steps[k - 1], bad[0])
                 out["violations"].append((sig, bad[1] + "\ncallee kind=%s cluster=%s passed-as-argument=%s in-process history=%s" % (callee_kind, cluster, argpass, list(steps[:k])),
                                           {"part": "C", "callee": callee_kind, "cluster": cluster, "steps": list(steps[:k]), "inproc": True, "argpass": argpass}))
                 break
@@ -460,6 +495,10 @@ def run(ctx):
                     for steps in itertools.product(STEPS, repeat=n):
                         tasks.append((kind, cluster, steps, "xproc", argpass))
                         tasks.append((kind, cluster, steps, "inproc", argpass))
+            if kind in ("memento", "explicit", "explicit-colons"):
+                for steps in itertools.product([s_ for s_ in STEPS if s_ != "plain"], repeat=1):
+                    tasks.append((kind, cluster, steps, "xproc", "ppartial"))
+                    tasks.append((kind, cluster, steps, "inproc", "ppartial"))
             if kind not in ("explicit-empty", "explicit-colons"):
                 for n in (1, 2):
                     for steps in itertools.product(STEPS_MODB, repeat=n):
@@ -482,7 +521,7 @@ def replay(ctx, art):
     elif a["part"] == "B":
         r = part_b(([a["version"]], a["backend"]))
     else:
-        r = part_c((a["callee"], a["cluster"], tuple(a["steps"]), "inproc" if a.get("inproc") else "xproc", a.get("argpass") if a.get("argpass") == "modb" else bool(a.get("argpass"))))
+        r = part_c((a["callee"], a["cluster"], tuple(a["steps"]), "inproc" if a.get("inproc") else "xproc", a.get("argpass") if a.get("argpass") in ("modb", "ppartial") else bool(a.get("argpass"))))
     for v in r["violations"]:
         print(v[0], "\n", v[1])
     print("REPLAY property=C12 result=%s" % bool(r["violations"]))
